@@ -74,6 +74,104 @@ func H_C05_truthy() {
 	}
 }
 
+// H_C05_truthyViaDot: the same values reached as '.' - as the data given to Execute, as an
+// element of a []interface{} and as a value of a map[string]interface{} ranged without
+// variables, and as a field of interface type: the branch taken follows the same rule
+// (a value held in an interface is as true as the value itself).
+//
+//gosym:reach true,false
+func H_C05_truthyViaDot() {
+	v, truthy, _ := c05Value("v")
+	site := ndChoice("site", 4)
+	srcs := []string{
+		`{{ if . }}T{{ else }}F{{ end }}`,
+		`{{ range xs }}{{ if . }}T{{ else }}F{{ end }}{{ end }}`,
+		`{{ range m }}{{ if . }}T{{ else }}F{{ end }}{{ end }}`,
+		`{{ if h.V }}T{{ else }}F{{ end }}`,
+	}
+	set := hxSet(nil, "/m.jet", srcs[site])
+	vars := make(VarMap)
+	vars.Set("xs", []interface{}{v})
+	vars.Set("m", map[string]interface{}{"k": v})
+	vars.Set("h", struct{ V interface{} }{v})
+	out, err := hxExec(set, "/m.jet", vars, v)
+	vfAssert(err == nil, "renders")
+	if truthy {
+		vfReach("true")
+		vfAssert(out == "T", "truthy value takes the if branch")
+	} else {
+		vfReach("false")
+		vfAssert(out == "F", "falsy value takes the else branch")
+	}
+}
+
+// H_C05_rangeViaDot: a rangeable value of each kind held in an interface (an element of a
+// []interface{} ranged without variables, so that it is '.') is ranged like the value
+// itself: once per element in order, else iff empty.
+//
+//gosym:reach looped,empty
+func H_C05_rangeViaDot() {
+	kinds := []string{"slice", "ifaceSlice", "map", "ranger", "chan", "ptrSlice", "array"}
+	kd := ndChoice("subject", len(kinds))
+	n := ndChoice("n", 3)
+	elems := make([]string, n)
+	for i := range elems {
+		elems[i] = "e" + ndItoa(i)
+	}
+	var subj interface{}
+	switch kinds[kd] {
+	case "slice":
+		subj = elems
+	case "ifaceSlice":
+		is := make([]interface{}, n)
+		for i := range is {
+			is[i] = elems[i]
+		}
+		subj = is
+	case "map":
+		vfAssume(n <= 1)
+		m := map[string]string{}
+		for i := 0; i < n; i++ {
+			m["mk"] = elems[i]
+		}
+		subj = m
+	case "ranger":
+		subj = &c05Ranger{n: n, index: true}
+		for i := 0; i < n; i++ {
+			elems[i] = "v" + ndItoa(i)
+		}
+	case "chan":
+		ch := make(chan string, 4)
+		for _, e := range elems {
+			ch <- e
+		}
+		close(ch)
+		subj = ch
+	case "ptrSlice":
+		subj = &elems
+	default:
+		vfAssume(n == 2)
+		subj = [2]string{elems[0], elems[1]}
+	}
+	set := hxSet(nil, "/m.jet", `{{ range outer }}[{{ range . }}({{ . }}){{ else }}E{{ end }}]{{ end }}`)
+	vars := make(VarMap)
+	vars.Set("outer", []interface{}{subj})
+	out, err := hxExec(set, "/m.jet", vars, "D")
+	vfAssert(err == nil, "renders")
+	want := ""
+	for _, e := range elems {
+		want += "(" + e + ")"
+	}
+	if n == 0 {
+		vfReach("empty")
+		want = "E"
+	} else {
+		vfReach("looped")
+	}
+	vfNote(out)
+	vfAssert(out == "["+want+"]", "a rangeable value held in an interface is ranged like the value itself")
+}
+
 // H_C05_chain: if / else if / else chains of every shape (with and without else-if and
 // else, with and without a declaration prefix) over two symbolic conditions: exactly one
 // branch renders, the first whose condition is truthy, else the else branch if present;
@@ -136,7 +234,8 @@ func (r *c05Ranger) Range() (reflect.Value, reflect.Value, bool) {
 }
 func (r *c05Ranger) ProvidesIndex() bool { return r.index }
 
-// H_C05_rangeForms: the six range forms (no variable, one, two; := and =) over each kind
+// H_C05_rangeForms: the nine range forms (no variable, one, two; := and =; '_' in either
+// position of the two-variable forms) over each kind
 // of rangeable value with a symbolic number n <= K of elements (K = 2 quick / 3 thorough):
 // the body runs once per element, in order, binding key/value/'.' as documented; the else
 // branch renders exactly when there are no elements; two variables over an index-less
@@ -154,8 +253,13 @@ func H_C05_rangeForms() {
 		`{{ range k, v := S }}({{ k }}={{ v }};{{ . }}){{ else }}E{{ end }}`,
 		`{{ v = S2 }}{{ range v = S }}({{ v }};{{ . }}){{ else }}E{{ end }}`,
 		`{{ k = S2 }}{{ v = S2 }}{{ range k, v = S }}({{ k }}={{ v }};{{ . }}){{ else }}E{{ end }}`,
+		// discards: the two-variable forms with '_' in either position
+		`{{ range _, v := S }}(_={{ v }};{{ . }}){{ else }}E{{ end }}`,
+		`{{ range k, _ := S }}({{ k }}=_;{{ . }}){{ else }}E{{ end }}`,
+		`{{ v = S2 }}{{ range _, v = S }}(_={{ v }};{{ . }}){{ else }}E{{ end }}`,
+		`{{ k = S2 }}{{ range k, _ = S }}({{ k }}=_;{{ . }}){{ else }}E{{ end }}`,
 	}
-	kinds := []string{"slice", "array", "ifaceSlice", "chan", "ranger", "rangerNoIndex", "ptrSlice", "map"}
+	kinds := []string{"slice", "array", "ifaceSlice", "chan", "ranger", "rangerNoIndex", "ptrSlice", "map", "nilSlice", "nilMap", "emptyMap"}
 	f := ndChoice("form", len(forms))
 	kd := ndChoice("subject", len(kinds))
 	n := ndChoice("n", K+1)
@@ -202,6 +306,17 @@ func H_C05_rangeForms() {
 		hasIndex = false
 	case "ptrSlice":
 		subj = &elems
+	case "nilSlice": // a typed nil slice has no elements
+		vfAssume(n == 0)
+		var ns []string
+		subj = ns
+	case "nilMap":
+		vfAssume(n == 0)
+		var nm map[string]string
+		subj = nm
+	case "emptyMap":
+		vfAssume(n == 0)
+		subj = map[int]string{}
 	default:
 		vfAssume(n <= 1) // map iteration order is unspecified: at most one entry here
 		m := map[string]string{}
@@ -216,7 +331,7 @@ func H_C05_rangeForms() {
 	vars.Set("S", subj)
 	vars.Set("S2", "init")
 	out, err := hxExec(set, "/m.jet", vars, "D")
-	twoVar := f == 2 || f == 4
+	twoVar := f == 2 || f >= 4
 	if twoVar && !hasIndex {
 		vfReach("twovar-error")
 		vfAssert(err != nil, "two variables over an index-less ranger is an error")
@@ -245,6 +360,10 @@ func H_C05_rangeForms() {
 			} else {
 				want += "(" + elems[i] + ";D)"
 			}
+		case 5, 7:
+			want += "(_=" + elems[i] + ";D)"
+		case 6, 8:
+			want += "(" + keys[i] + "=_;D)"
 		default:
 			want += "(" + keys[i] + "=" + elems[i] + ";D)"
 		}
